@@ -31,6 +31,8 @@ enum Case {
         seed: String,
     },
     Refusals { suite: String, n: u16, t: u16, seed: String },
+    /// a large helper set (all other participants of a group of n)
+    ManyHelpers { suite: String, n: u16, t: u16, seed: String },
     /// every blinding vector on the tiny field
     Tiny { q: u64, n: u16, t: u16, target: u64, helpers: u32 },
 }
@@ -109,6 +111,11 @@ impl Prop for C11 {
                 );
             }
         }
+        for suite in REAL_SUITES {
+            let n = if suite == "ed448" { 20u16 } else { 60u16 };
+            out.push(serde_json::to_value(Case::ManyHelpers { suite: suite.to_string(), n, t: 2, seed: format!("s{seed}") }).unwrap());
+            out.push(serde_json::to_value(Case::ManyHelpers { suite: suite.to_string(), n: n / 2, t: n / 2 - 1, seed: format!("s{seed}") }).unwrap());
+        }
         for q in [7u64, 11] {
             for (n, t) in [(3u16, 2u16), (4, 2), (4, 3), (5, 3)] {
                 if n as u64 >= q - 1 {
@@ -133,7 +140,7 @@ impl Prop for C11 {
     fn run(&self, case: &Value) -> Outcome {
         let c: Case = serde_json::from_value(case.clone()).expect("case");
         match &c {
-            Case::Real { suite, .. } | Case::Refusals { suite, .. } => with_suite!(suite.as_str(), run_real, &c),
+            Case::Real { suite, .. } | Case::Refusals { suite, .. } | Case::ManyHelpers { suite, .. } => with_suite!(suite.as_str(), run_real, &c),
             Case::Tiny { q, .. } => match q {
                 7 => run_tiny::<7>(&c),
                 11 => run_tiny::<11>(&c),
@@ -298,6 +305,26 @@ fn run_real<C: Suite>(c: &Case) -> Outcome {
                 s.push(tid);
                 s.sort();
                 super::c01::session_check::<C>(&mut o, &tag, &grp.kps, &grp.pkp, &s, b"after repair", "rep");
+            }
+        }
+        Case::ManyHelpers { n, t, seed, .. } => {
+            let grp = match make_group::<C>(KeySrc::Dealer, *n, *t, IdKind::U16x, seed) {
+                Ok(g) => g,
+                Err(e) => {
+                    o.eval(false);
+                    o.fail(format!("{tag}/setup"), e);
+                    return o;
+                }
+            };
+            // repair the middle participant with ALL others helping; and a brand-new identifier with everyone helping
+            let mid = grp.ids[grp.ids.len() / 2];
+            let hs: Vec<_> = grp.ids.iter().filter(|i| **i != mid).copied().collect();
+            o.eval(true);
+            repair_and_check::<C>(&mut o, &tag, &format!("many helpers n={n} t={t} existing target"), &grp, &hs, mid, true, &format!("{seed}:many"), None);
+            let newid = new_id::<C>(2, *n);
+            if !grp.ids.contains(&newid) {
+                o.eval(true);
+                repair_and_check::<C>(&mut o, &tag, &format!("many helpers n={n} t={t} new target"), &grp, &grp.ids, newid, false, &format!("{seed}:manynew"), None);
             }
         }
         Case::Refusals { n, t, seed, .. } => {
